@@ -1,14 +1,16 @@
 #!/bin/bash
-# usage: ./seedall.sh id... — verify seeds and print one-line summaries
-for id in "$@"; do ./seedverify.py $id --keep > /tmp/seed/out/$id.verify.json 2>&1; python3 - $id <<'PY'
+# usage: [SEED_BASE=/tmp/seed2] ./seedall.sh id... — verify seeds and print one-line summaries
+base=${SEED_BASE:-/tmp/seed}
+for id in "$@"; do ./seedverify.py $id --keep > $base/out/$id.verify.json 2>&1; python3 - $id $base <<'PY'
 import json, sys
-i = sys.argv[1]
+i, base = sys.argv[1], sys.argv[2]
+f = '%s/out/%s.verify.json' % (base, i)
 try:
-    r = json.load(open('/tmp/seed/out/%s.verify.json' % i))
+    r = json.load(open(f))
     print(r['id'], 'tests_touched' if r['touches_tests'] else '', 'builds' if r['builds'] else 'NOBUILD', r['baseline'], '| demo with:', 'FAIL' if 'FAIL' in r.get('demo_with_patch_tail', '') else 'pass?', 'without:', 'ok' if 'ok ' in r.get('demo_without_patch_tail', '') and 'FAIL' not in r.get('demo_without_patch_tail', '') else 'NOT-OK', '| checks:', {k: v['rc'] for k, v in r['checks'].items()})
     for k, v in r['checks'].items():
         print('   ', [x[:220] for x in v['head'][:3]])
 except Exception as e:
-    print(i, 'ERR', e, open('/tmp/seed/out/%s.verify.json' % i).read()[-500:])
+    print(i, 'ERR', e, open(f).read()[-500:])
 PY
 done
